@@ -32,7 +32,7 @@ func runC09(p *core.Prog, r *core.Report) {
 			continue
 		}
 		for _, g := range []string{"GetManifestList", "GetConfig", "GetLayers"} {
-			r.Check(len(getterCalls(fn, g)) > 0, r1, p.FuncName(fn), n+" consults "+g, p.Pos(fn.Pos()), "content reachable only through this edge kind would be missing from the archive / not imported")
+			r.Check(len(getterCallsUnit(fn, g)) > 0, r1, p.FuncName(fn), n+" consults "+g, p.Pos(fn.Pos()), "content reachable only through this edge kind would be missing from the archive / not imported")
 		}
 	}
 	c03R5(p, r, r1)
